@@ -1097,3 +1097,10 @@ _ENUM_MEMO = [
 ]
 TABLE["C10"] += [B("rendered-enum-memoised-by-spelling", {"T8"}, *_ENUM_MEMO)]
 TABLE["C14"] += [B("rendered-enum-memoised-by-spelling", {"R8"}, *_ENUM_MEMO)]
+_CT_A = "            check_type = self.data_type_param.get(name)\n\n            if self.data_type.get(check_type):\n                check_type = self.data_type[check_type]\n\n            if check_type is None:\n                check_type = self._format_type_name(\n                    arg.ctype.typename,\n                    separator='.',\n                    is_constructor=not wrap_datatypes)\n"
+_CT_B = "            check_type = self.data_type_param.get(name)\n\n            if self.data_type.get(check_type):\n                check_type = self.data_type[check_type]\n\n            if check_type is None:\n                check_type = self._format_type_name(arg.ctype.typename,\n                                                    separator='.')\n"
+_CT_ANCHOR = '    def _wrap_list_variable_arguments(self, args):'
+TABLE["C06"] += [
+    N("guard-type-lookup-moved-into-a-helper", (MW, _CT_A, '            check_type = self._check_type(arg.ctype.typename, is_constructor=not wrap_datatypes)\n'), (MW, _CT_B, '            check_type = self._check_type(arg.ctype.typename)\n'), (MW, _CT_ANCHOR + "\n", "    def _check_type(self, typename, is_constructor=False):\n        check_type = self.data_type_param.get(typename.name)\n\n        if self.data_type.get(check_type):\n            check_type = self.data_type[check_type]\n\n        if check_type is None:\n            check_type = self._format_type_name(typename, separator='.', is_constructor=is_constructor)\n\n        return check_type\n\n" + _CT_ANCHOR + "\n")),
+    B("guard-type-lookup-cached-by-short-name", {"M8"}, (MW, _CT_A, '            check_type = self._check_type(arg.ctype.typename, is_constructor=not wrap_datatypes)\n'), (MW, _CT_B, '            check_type = self._check_type(arg.ctype.typename)\n'), (MW, _CT_ANCHOR + "\n", "    def _check_type(self, typename, is_constructor=False):\n        if not hasattr(self, 'check_types'):\n            self.check_types = {}\n        key = (typename.instantiated_name(), is_constructor)\n        check_type = self.check_types.get(key)\n        if check_type is None:\n            check_type = self.data_type_param.get(typename.name)\n\n            if self.data_type.get(check_type):\n                check_type = self.data_type[check_type]\n\n            if check_type is None:\n                check_type = self._format_type_name(typename, separator='.', is_constructor=is_constructor)\n            self.check_types[key] = check_type\n\n        return check_type\n\n" + _CT_ANCHOR + "\n")),
+]
